@@ -611,6 +611,10 @@ def run(props, tier, seed, families=None):
             cs += list(F.random_cases(fam, 150, (5, 30), seed))
         else:
             cs += list(F.random_cases(fam, 12, (5, 26), seed))
+        if fam in ('object-str', 'category') and ('C07' in props or 'C01' in props):
+            # the categories threshold: exactly 19, 20 and 21 distinct strings (with a repeat and, where it may be, a null)
+            for k in (19, 20, 21):
+                cs.append(tuple('v%02d' % i for i in range(k)) + ('v00',) + ((None,) if fam in F.NULLABLE else ()))
         n = max(1, len(cs) // 8)
         for i in range(0, len(cs), n):
             jobs.append((fam, cs[i:i + n], tuple(props), {'seed': seed}))
